@@ -95,6 +95,18 @@ def _f(s, num="float"):
     return float(q)
 
 
+def _flag(inp):
+    """the flag as a caller may pass it: Python bool, numpy.bool_ (e.g. the result of `(levels > x).any()`), or 0 / 1 -
+    the property quantifies over both truth values, not over the object that carries them"""
+    rep = inp.get("flag", "bool")
+    if rep == "np":
+        import numpy as np
+        return np.bool_(inp["incl"])
+    if rep == "int":
+        return int(inp["incl"])
+    return bool(inp["incl"])
+
+
 def _call(inp, parent=PARENTS[0]):
     from soundevent import data
     from soundevent.operations import segment_clip
@@ -104,7 +116,9 @@ def _call(inp, parent=PARENTS[0]):
     kw = {}
     if inp.get("hop") is not None:
         kw["hop"] = _f(inp["hop"], num)
-    return clip, list(segment_clip(clip, duration=_f(inp["duration"], num), include_incomplete=inp["incl"], **kw))
+    if inp.get("style") == "pos":           # the documented positional order: clip, duration, hop, include_incomplete
+        return clip, list(segment_clip(clip, _f(inp["duration"], num), kw.get("hop"), _flag(inp)))
+    return clip, list(segment_clip(clip, duration=_f(inp["duration"], num), include_incomplete=_flag(inp), **kw))
 
 
 def _namespace():
@@ -282,7 +296,7 @@ def _h_build(inp):
 
 def _h_kw(inp):
     num = inp.get("num", "float")
-    kw = {"duration": _f(inp["duration"], num), "include_incomplete": inp["incl"]}
+    kw = {"duration": _f(inp["duration"], num), "include_incomplete": _flag(inp)}
     if inp.get("hop") is not None:
         kw["hop"] = _f(inp["hop"], num)
     return kw
@@ -590,7 +604,15 @@ def _stage_grid(ctx):
 def _with_types(rng, cases):
     for c in cases:
         r = rng.random()
-        yield {**c, "num": "int"} if r < 0.15 else ({**c, "num": "np"} if r < 0.25 else c)
+        c = {**c, "num": "int"} if r < 0.15 else ({**c, "num": "np"} if r < 0.25 else c)
+        r = rng.random()
+        if r < 0.2:
+            c = {**c, "flag": "np"}
+        elif r < 0.3:
+            c = {**c, "flag": "int"}
+        if rng.random() < 0.2:
+            c = {**c, "style": "pos"}
+        yield c
 
 
 def _stage_random(ctx):
